@@ -67,6 +67,8 @@ def to_opb_file(formula, fileorname=None,
     if export_varnames:
         for varid, label in enumerate(formula.all_variable_labels(), start=1):
             label = " ".join(str(label).splitlines())
+            # ascii compatible, as the header
+            label = label.encode('ascii', errors='replace').decode('ascii')
             output.write("* varname x{0} {1}\n".format(varid, label))
         output.write("*\n")
 
